@@ -23,7 +23,7 @@ PROP = dict(
                        "Comdex.C14.twa_reads_pinned", "Comdex.C14.price_swallow_reviewed_tight", "Comdex.C14.price_guard_pinned",
                        "Comdex.C14.sweeps_skip_controlled", "Comdex.C14.sweeps_pinned", "Comdex.C14.spec_lists",
                        "Comdex.C14.position_writers_breaker_guarded", "Comdex.C14.breaker_unguarded_writers_tight",
-                       "Comdex.C14.breaker_list_writes_positions", "Comdex.C14.nonmsg_position_writers_pinned",
+                       "Comdex.C14.breaker_list_writes_positions", "Comdex.C14.liquidation_vault_tied_to_checked_app", "Comdex.C14.app_ties_pinned", "Comdex.C14.nonmsg_position_writers_pinned",
                        "Comdex.C14.snapshot_entries_only_from_active", "Comdex.C14.snapshot_completes_only_when_all_active",
                        "Comdex.C14.snapshot_status_false_while_inactive", "Comdex.C14.snapshot_price_only_from_active",
                        "Comdex.C14.never_active_no_snapshot_price", "Comdex.C14.never_active_unavailable",
